@@ -91,7 +91,10 @@ namespace jsoncons {
 
         sorted_json_object& operator=(const sorted_json_object& other)
         {
-            data_ = other.data_;
+            // Copy first, then swap: element-wise vector assignment that fails half way
+            // would leave old and new members mixed (keys out of order or duplicated).
+            key_value_container_type temp(other.data_, data_.get_allocator());
+            data_.swap(temp);
             return *this;
         }
 
